@@ -97,7 +97,9 @@ func Scan(data string, loc SourceLoc, delims []string) (tokens []Token) {
 			// text it contains, it extends to where the first end tag starts.
 			endMatcher, ok := endMatchers[blockEnd]
 			if !ok {
-				endMatcher = regexp.MustCompile(fmt.Sprintf(`%s-?\s*%s\b`, regexp.QuoteMeta(delims[2]), blockEnd))
+				// the tag name ends at a word boundary, or where the closing delimiter begins (one that
+				// starts with an underscore makes no word boundary)
+				endMatcher = regexp.MustCompile(fmt.Sprintf(`%s-?\s*%s(?:\b|-?%s)`, regexp.QuoteMeta(delims[2]), blockEnd, regexp.QuoteMeta(delims[3])))
 				endMatchers[blockEnd] = endMatcher
 			}
 			if noEnd[blockEnd] {
